@@ -1,2 +1,4 @@
 import Driver.Core
 import Driver.Order
+import Driver.Keys
+import Driver.Sign
